@@ -425,9 +425,10 @@ def oracle(case, obs):
                 out.append(("C15", "C15/delivery-off-edge", "step %d: %d delivered to %d, not a current edge" % (step, s, d)))
         if op[0] == "remit":
             if o["raised"]:
-                # a combining node detached by the edit and still served from the snapshot of a loop that was already
-                # running: its update raises (zip: self.buffers[who] KeyError; combine_latest: upstreams.index(who)
-                # ValueError) and unwinds the whole emission
+                # (defect 32, repaired; the clause stays so that it fires if the defect returns) a combining node
+                # detached by the edit and still served from the snapshot of a loop that was already running: its update
+                # raises (zip: self.buffers[who] KeyError; combine_latest: upstreams.index(who) ValueError) and unwinds
+                # the whole emission
                 ed = op[4]
                 tgt = ed[2] if ed[0] == "disconnect" else (ed[1] if ed[0] == "destroy" else None)
                 last = o["deliv"][-1] if o["deliv"] else None
@@ -444,6 +445,34 @@ def oracle(case, obs):
             if o.get("edit_raised"):
                 out.append(("C15", "C15/reentrant-edit/edit-raises", "step %d (%s): the edit made inside the callback raised %s" % (step, op, o["edit_raised"])))
                 return out
+            # the emission gives back every reference it took, whatever the callback did to the graph (histories without
+            # combining nodes are run with a reference counter in the metadata; the owner's reference is the one left)
+            if o.get("refs_left") is not None and o["refs_left"] != 1:
+                out.append(("C15", "C15/reentrant-edit/reference-not-released",
+                            "step %d (%s): the element's reference counter is at %d after the emission returned (1 = the owner's reference): Stream._emit retained one reference per child of its snapshot and did not release the one of a child the callback detached"
+                            % (step, op, o["refs_left"])))
+                return out
+            # a child detached by the edit before it was served must NOT be handed the element: Stream._emit tests
+            # `downstream not in self.downstreams` before each hand-over, so the running loops (which walk the snapshot of
+            # the downstream set they took when they started) skip it.  The edit takes effect when the reactive sink is
+            # first handed an element: every delivery logged after that one is judged against the edges the edit removed.
+            if o.get("edit_done"):
+                ed = op[4]
+                removed = set()
+                if ed[0] == "disconnect":
+                    removed.add((ed[1], ed[2]))
+                if ed[0] == "destroy" and ed[1] < len(prev) and prev[ed[1]][0]:
+                    removed.update((u, ed[1]) for u in prev[ed[1]][1])
+                cut = next((k for k, (s_, d, x) in enumerate(o["deliv"]) if d == op[3]), None)
+                if cut is not None and removed:
+                    for k, (s_, d, x) in enumerate(o["deliv"]):
+                        if k > cut and (s_, d) in removed:
+                            kd = kinds[d] if d < len(kinds) else "?"
+                            kd = {"combine_on": "combine", "combine_on0": "combine"}.get(kd, kd)
+                            out.append(("C15", "C15/reentrant-edit/detached-input-still-served/%s" % kd,
+                                        "step %d (%s): node %d (%s) was detached from its input %d by the edit made inside the callback and was still handed the element afterwards by the running loop of %d (served from the snapshot of the downstream set)"
+                                        % (step, op, d, kd, s_, s_)))
+                            return out
             # every node that forwards what it gets (the emitting node, pipes) hands the element to each child whose
             # edge existed before AND after the step (the untouched edges), once per time it received it
             recv = {}
